@@ -1,3 +1,1723 @@
-//! C21 — not built yet.
-pub const BUILT: bool = false;
-pub fn run(_rep: &mut vx::Report) {}
+//! C21 — content streams parse back to the operators that were written.
+//!
+//! Writer half. Calls are issued on a real `Page` (`page.graphics()`, `page.text()`,
+//! `page.begin_marked_content…`), the page goes into a `Document`, `Document::to_bytes`
+//! writes the file, and the page's content stream is read back with the independent file
+//! reader `refpdf::file`. Three oracle layers, weakest assumption first:
+//!  (a) `refpdf::content::parse_content` and the library's `ContentParser::parse` return the
+//!      same operator list for the emitted bytes (refpdf operators are converted to the
+//!      library's `ContentOperation` and compared with `==`);
+//!  (b) `refpdf::content::parse_content_strict` reports no invalid token, no NaN/inf-like
+//!      number, no unknown operator, no operand count/type deviation from Annex A, no
+//!      dangling operand (nesting issues are the caller's business and ignored);
+//!  (c) for calls with a per-call model the parsed operators are the issued ones, in call
+//!      order, numbers within half a unit of the documented precision (`{:.2}` operands,
+//!      `{:.3}` colours, `{:.4}` sc components, non-finite -> 0), strings byte-exact, names
+//!      exact, marked-content property dictionaries equal. Colour operators are checked
+//!      semantically: the colour in force at every paint operator (interpreting g/rg/k,
+//!      G/RG/K and q/Q of the parsed stream) is the colour last set through the API.
+//!      Composite helpers (`circle`, `draw_text` layout, `show_cid_array`) are held to
+//!      (a)+(b) plus the parts of their output their documentation pins (Tj/TJ string bytes).
+//!
+//! Parser half: `ContentParser::parse` on every byte string of length <= 3 over a 24-byte
+//! alphabet and on every single-byte substitution of three real content streams: must
+//! return (Ok or Err) without panicking; a watchdog thread aborts the run with a VIOLATION
+//! line if one parse takes longer than 20 s (machinery guard, never expected to fire).
+use oxidize_pdf::graphics::{CidShowElement, ExtGState, LineCap, LineDashPattern, LineJoin, RenderingIntent};
+use oxidize_pdf::parser::content::{ContentOperation, ContentParser, MarkedContentProps, MarkedContentValue, TextElement};
+use oxidize_pdf::text::{Font, TextEncoding, TextRenderingMode};
+use oxidize_pdf::{Color, Document, Page};
+use refpdf::content::{self as rc, IssueKind, Op as ROp};
+use refpdf::file::PdfFile;
+use refpdf::syntax::Obj;
+use serde_json::json;
+use std::collections::HashMap;
+use std::sync::atomic::{AtomicU64, Ordering};
+use std::sync::{Arc, Mutex};
+use vx::{Ctx, Explore, Report};
+
+pub const BUILT: bool = true;
+
+const NAN: f64 = f64::NAN;
+const INF: f64 = f64::INFINITY;
+/// argument menu: one ordinary value first (the default answer), then the menu of DESIGN.md
+const NUMS: [f64; 9] = [12.5, 0.0, -0.0, 0.005, 1e9, NAN, INF, -INF, -1e-9];
+
+// ------------------------------------------------------------------ calls
+
+#[derive(Clone, Debug, PartialEq)]
+enum Col {
+    Gray(f64),
+    Rgb(f64, f64, f64),
+    Cmyk(f64, f64, f64, f64),
+}
+impl Col {
+    fn to_lib(&self) -> Color {
+        // the enum is built directly so that out-of-range / non-finite components reach the writer
+        match *self {
+            Col::Gray(g) => Color::Gray(g),
+            Col::Rgb(r, g, b) => Color::Rgb(r, g, b),
+            Col::Cmyk(c, m, y, k) => Color::Cmyk(c, m, y, k),
+        }
+    }
+    fn comps(&self) -> Vec<f64> {
+        match *self {
+            Col::Gray(g) => vec![g],
+            Col::Rgb(r, g, b) => vec![r, g, b],
+            Col::Cmyk(c, m, y, k) => vec![c, m, y, k],
+        }
+    }
+}
+
+#[derive(Clone, Debug, PartialEq)]
+enum F {
+    Helvetica,
+    Courier,
+    TimesRoman,
+    Custom(&'static str),
+}
+impl F {
+    fn to_lib(&self) -> Font {
+        match self {
+            F::Helvetica => Font::Helvetica,
+            F::Courier => Font::Courier,
+            F::TimesRoman => Font::TimesRoman,
+            F::Custom(n) => Font::Custom(n.to_string()),
+        }
+    }
+    fn pdf_name(&self) -> &'static str {
+        match self {
+            F::Helvetica => "Helvetica",
+            F::Courier => "Courier",
+            F::TimesRoman => "Times-Roman",
+            F::Custom(n) => n,
+        }
+    }
+    fn is_custom(&self) -> bool {
+        matches!(self, F::Custom(_))
+    }
+}
+
+#[derive(Clone, Debug, PartialEq)]
+enum Call {
+    // GraphicsContext
+    MoveTo(f64, f64),
+    LineTo(f64, f64),
+    CurveTo([f64; 6]),
+    Rect([f64; 4]),
+    ClosePath,
+    Stroke,
+    Fill,
+    FillStroke,
+    EndPath,
+    Clip,
+    ClipEvenOdd,
+    ClipStroke,
+    SetStrokeColor(Col),
+    SetFillColor(Col),
+    LineWidth(f64),
+    Cap(u8),
+    Join(u8),
+    Miter(f64),
+    Dash(Vec<f64>, f64),
+    LineSolid,
+    Flatness(f64),
+    Intent(u8),
+    SetAlpha(f64),
+    SetOpacity(f64),
+    Save,
+    Restore,
+    Transform([f64; 6]),
+    Translate(f64, f64),
+    Scale(f64, f64),
+    Rotate(f64),
+    DrawImage(&'static str, [f64; 4]),
+    PaintShading(&'static str),
+    GBeginText,
+    GEndText,
+    GSetFont(F, f64),
+    GTextPos(f64, f64),
+    GShowText(String),
+    GWordSpacing(f64),
+    GCharSpacing(f64),
+    /// (cid, adjust, x_offset)
+    ShowCidArray(Vec<(u16, f32, f32)>, f64, f64),
+    // composites without a per-call model
+    Circle(f64, f64, f64),
+    DrawText(String, f64, f64),
+    // TextContext
+    TSetFont(F, f64),
+    TAt(f64, f64),
+    TWrite(String),
+    TCharSpacing(f64),
+    TWordSpacing(f64),
+    THScale(f64),
+    TLeading(f64),
+    TRise(f64),
+    TRenderMode(u8),
+    TFillColor(Col),
+    TStrokeColor(Col),
+    // Page
+    BeginMC(&'static str),
+    BeginMCActual(&'static str, &'static str),
+    EndMC,
+}
+
+fn cap(n: u8) -> LineCap {
+    match n {
+        0 => LineCap::Butt,
+        1 => LineCap::Round,
+        _ => LineCap::Square,
+    }
+}
+fn join(n: u8) -> LineJoin {
+    match n {
+        0 => LineJoin::Miter,
+        1 => LineJoin::Round,
+        _ => LineJoin::Bevel,
+    }
+}
+const INTENTS: [(&str, RenderingIntent); 4] = [
+    ("AbsoluteColorimetric", RenderingIntent::AbsoluteColorimetric),
+    ("RelativeColorimetric", RenderingIntent::RelativeColorimetric),
+    ("Saturation", RenderingIntent::Saturation),
+    ("Perceptual", RenderingIntent::Perceptual),
+];
+fn tr_mode(n: u8) -> TextRenderingMode {
+    match n {
+        0 => TextRenderingMode::Fill,
+        1 => TextRenderingMode::Stroke,
+        2 => TextRenderingMode::FillStroke,
+        3 => TextRenderingMode::Invisible,
+        4 => TextRenderingMode::FillClip,
+        5 => TextRenderingMode::StrokeClip,
+        6 => TextRenderingMode::FillStrokeClip,
+        _ => TextRenderingMode::Clip,
+    }
+}
+
+/// Issue one call on the page. `Err` = the API call itself returned an error.
+fn apply(page: &mut Page, c: &Call) -> Result<(), String> {
+    let e = |r: oxidize_pdf::Result<()>| r.map_err(|e| e.to_string());
+    match c {
+        Call::MoveTo(x, y) => {
+            page.graphics().move_to(*x, *y);
+        }
+        Call::LineTo(x, y) => {
+            page.graphics().line_to(*x, *y);
+        }
+        Call::CurveTo(a) => {
+            page.graphics().curve_to(a[0], a[1], a[2], a[3], a[4], a[5]);
+        }
+        Call::Rect(a) => {
+            page.graphics().rect(a[0], a[1], a[2], a[3]);
+        }
+        Call::ClosePath => {
+            page.graphics().close_path();
+        }
+        Call::Stroke => {
+            page.graphics().stroke();
+        }
+        Call::Fill => {
+            page.graphics().fill();
+        }
+        Call::FillStroke => {
+            page.graphics().fill_stroke();
+        }
+        Call::EndPath => {
+            page.graphics().end_path();
+        }
+        Call::Clip => {
+            page.graphics().clip();
+        }
+        Call::ClipEvenOdd => {
+            page.graphics().clip_even_odd();
+        }
+        Call::ClipStroke => {
+            page.graphics().clip_stroke();
+        }
+        Call::SetStrokeColor(col) => {
+            page.graphics().set_stroke_color(col.to_lib());
+        }
+        Call::SetFillColor(col) => {
+            page.graphics().set_fill_color(col.to_lib());
+        }
+        Call::LineWidth(w) => {
+            page.graphics().set_line_width(*w);
+        }
+        Call::Cap(n) => {
+            page.graphics().set_line_cap(cap(*n));
+        }
+        Call::Join(n) => {
+            page.graphics().set_line_join(join(*n));
+        }
+        Call::Miter(m) => {
+            page.graphics().set_miter_limit(*m);
+        }
+        Call::Dash(a, p) => {
+            page.graphics().set_line_dash_pattern(LineDashPattern::new(a.clone(), *p));
+        }
+        Call::LineSolid => {
+            page.graphics().set_line_solid();
+        }
+        Call::Flatness(f) => {
+            page.graphics().set_flatness(*f);
+        }
+        Call::Intent(i) => {
+            page.graphics().set_rendering_intent(INTENTS[*i as usize].1);
+        }
+        Call::SetAlpha(a) => {
+            page.graphics().apply_extgstate(ExtGState::new().with_alpha(*a)).map_err(|e| e.to_string())?;
+        }
+        Call::SetOpacity(a) => {
+            page.graphics().set_opacity(*a);
+        }
+        Call::Save => {
+            page.graphics().save_state();
+        }
+        Call::Restore => {
+            page.graphics().restore_state();
+        }
+        Call::Transform(a) => {
+            page.graphics().transform(a[0], a[1], a[2], a[3], a[4], a[5]);
+        }
+        Call::Translate(x, y) => {
+            page.graphics().translate(*x, *y);
+        }
+        Call::Scale(x, y) => {
+            page.graphics().scale(*x, *y);
+        }
+        Call::Rotate(a) => {
+            page.graphics().rotate(*a);
+        }
+        Call::DrawImage(n, a) => {
+            page.graphics().draw_image(*n, a[0], a[1], a[2], a[3]);
+        }
+        Call::PaintShading(n) => {
+            page.graphics().paint_shading(*n);
+        }
+        Call::GBeginText => {
+            page.graphics().begin_text();
+        }
+        Call::GEndText => {
+            page.graphics().end_text();
+        }
+        Call::GSetFont(f, s) => {
+            page.graphics().set_font(f.to_lib(), *s);
+        }
+        Call::GTextPos(x, y) => {
+            page.graphics().set_text_position(*x, *y);
+        }
+        Call::GShowText(s) => {
+            page.graphics().show_text(s).map_err(|e| e.to_string())?;
+        }
+        Call::GWordSpacing(v) => {
+            page.graphics().set_word_spacing(*v);
+        }
+        Call::GCharSpacing(v) => {
+            page.graphics().set_character_spacing(*v);
+        }
+        Call::ShowCidArray(els, x, y) => {
+            let v: Vec<CidShowElement> = els.iter().map(|(c, a, o)| CidShowElement::new(*c, *a).with_x_offset(*o)).collect();
+            page.graphics().show_cid_array(&v, *x, *y);
+        }
+        Call::Circle(x, y, r) => {
+            page.graphics().circle(*x, *y, *r);
+        }
+        Call::DrawText(s, x, y) => {
+            page.graphics().draw_text(s, *x, *y).map_err(|e| e.to_string())?;
+        }
+        Call::TSetFont(f, s) => {
+            page.text().set_font(f.to_lib(), *s);
+        }
+        Call::TAt(x, y) => {
+            page.text().at(*x, *y);
+        }
+        Call::TWrite(s) => {
+            page.text().write(s).map_err(|e| e.to_string())?;
+        }
+        Call::TCharSpacing(v) => {
+            page.text().set_character_spacing(*v);
+        }
+        Call::TWordSpacing(v) => {
+            page.text().set_word_spacing(*v);
+        }
+        Call::THScale(v) => {
+            page.text().set_horizontal_scaling(*v);
+        }
+        Call::TLeading(v) => {
+            page.text().set_leading(*v);
+        }
+        Call::TRise(v) => {
+            page.text().set_text_rise(*v);
+        }
+        Call::TRenderMode(m) => {
+            page.text().set_rendering_mode(tr_mode(*m));
+        }
+        Call::TFillColor(col) => {
+            page.text().set_fill_color(col.to_lib());
+        }
+        Call::TStrokeColor(col) => {
+            page.text().set_stroke_color(col.to_lib());
+        }
+        Call::BeginMC(tag) => {
+            page.begin_marked_content(tag).map_err(|e| e.to_string())?;
+        }
+        Call::BeginMCActual(tag, t) => {
+            page.begin_marked_content_with_actual_text(tag, t).map_err(|e| e.to_string())?;
+        }
+        Call::EndMC => {
+            return e(page.end_marked_content());
+        }
+    }
+    Ok(())
+}
+
+/// Issue the calls, write the document, read the page content back with refpdf.
+/// Returns (content bytes, per-call API error if any).
+fn emit(calls: &[Call]) -> Result<(Vec<u8>, Vec<Option<String>>), String> {
+    let r = vx::guard(|| -> Result<(Vec<u8>, Vec<Option<String>>), String> {
+        let mut page = Page::a4();
+        let mut errs = Vec::new();
+        for c in calls {
+            errs.push(apply(&mut page, c).err());
+        }
+        let mut doc = Document::new();
+        doc.set_compress(false);
+        doc.add_page(page);
+        let bytes = doc.to_bytes().map_err(|e| format!("to_bytes: {e}"))?;
+        let f = PdfFile::parse(&bytes).map_err(|e| format!("refpdf cannot read the written file: {e}"))?;
+        let pages = f.pages().map_err(|e| format!("refpdf pages(): {e}"))?;
+        if pages.len() != 1 {
+            return Err(format!("written file has {} pages", pages.len()));
+        }
+        let content = f.page_content(&pages[0]).map_err(|e| format!("refpdf page_content: {e}"))?;
+        Ok((content, errs))
+    });
+    match r {
+        Ok(x) => x,
+        Err(p) => Err(format!("panic: {p}")),
+    }
+}
+
+// ------------------------------------------------------------------ expected operators (layer c)
+
+#[derive(Clone, Debug)]
+enum X {
+    /// number within half a unit of the `d`-th decimal of the (sanitised) value
+    Num(f64, u32),
+    /// any of several values (documented clamps)
+    NumAny(Vec<f64>, u32),
+    Int(i64),
+    Name(String),
+    Str(Vec<u8>),
+    /// a string whose bytes the standard does not pin (character without a WinAnsi code)
+    AnyStr,
+    NumArray(Vec<f64>, u32),
+    Dict(Vec<(String, X)>),
+}
+
+#[derive(Clone, Debug)]
+enum Exp {
+    Op(&'static str, Vec<X>),
+    /// `/<any name> gs`
+    GsAny,
+    /// paint operator with the colours that must be in force (None = not checked)
+    Paint(&'static str, Option<Col>, Option<Col>),
+    /// BT … ET emitted by `TextContext::write`: exactly one Tf, Td, Tj with these operands and
+    /// exactly one operator per set text-state parameter, all before the Tj (order among the
+    /// state operators is not part of the model)
+    TextBlock { tf: (String, f64), params: Vec<(&'static str, X)>, td: (f64, f64), tj: Option<Vec<u8>>, fill: Option<Col>, stroke: Option<Col> },
+    /// BT … ET emitted by a composite: only the pinned parts are compared
+    LooseText { td: Option<(f64, f64)>, tj: Option<Vec<u8>>, tj_array_glyphs: Option<Vec<u8>> },
+    /// a composite without a model: consumes nothing, switches layer (c) off for the case
+    Unmodelled,
+}
+
+fn fz(v: f64) -> f64 {
+    if v.is_finite() {
+        v
+    } else {
+        0.0
+    }
+}
+fn n2(v: f64) -> X {
+    X::Num(v, 2)
+}
+
+/// Annex D.2 WinAnsiEncoding, inverse direction, for the characters whose code the standard
+/// pins. `None` = the standard assigns no code to this character.
+fn winansi_code(ch: char) -> Option<u8> {
+    let c = ch as u32;
+    Some(match c {
+        0x20..=0x7E => c as u8,
+        0xA0..=0xFF => c as u8,
+        0x20AC => 0x80,
+        0x201A => 0x82,
+        0x0192 => 0x83,
+        0x201E => 0x84,
+        0x2026 => 0x85,
+        0x2020 => 0x86,
+        0x2021 => 0x87,
+        0x02C6 => 0x88,
+        0x2030 => 0x89,
+        0x0160 => 0x8A,
+        0x2039 => 0x8B,
+        0x0152 => 0x8C,
+        0x017D => 0x8E,
+        0x2018 => 0x91,
+        0x2019 => 0x92,
+        0x201C => 0x93,
+        0x201D => 0x94,
+        0x2022 => 0x95,
+        0x2013 => 0x96,
+        0x2014 => 0x97,
+        0x02DC => 0x98,
+        0x2122 => 0x99,
+        0x0161 => 0x9A,
+        0x203A => 0x9B,
+        0x0153 => 0x9C,
+        0x017E => 0x9E,
+        0x0178 => 0x9F,
+        _ => return None,
+    })
+}
+/// the character that WinAnsi-encodes to `b`, when one is pinned (controls: identity is the
+/// only candidate and is what the writer's public encoder documents for 0x00..0x7F)
+fn char_for_byte(b: u8) -> Option<char> {
+    match b {
+        0x00..=0x7F => Some(b as char),
+        0xA0..=0xFF => Some(b as char),
+        _ => (0x0100u32..0x2200).filter_map(char::from_u32).find(|c| winansi_code(*c) == Some(b)),
+    }
+}
+
+/// Expected Tj bytes for text shown with a builtin (WinAnsi) font: Annex D where pinned;
+/// for characters without a pinned code the library's own public encoder
+/// (`TextEncoding::WinAnsiEncoding::encode`) — this layer checks escaping and serialisation,
+/// the encoder itself is C25's subject.
+fn expected_winansi(text: &str) -> Vec<u8> {
+    let mut out = Vec::new();
+    for ch in text.chars() {
+        match winansi_code(ch) {
+            Some(b) => out.push(b),
+            None => out.extend(TextEncoding::WinAnsiEncoding.encode(&ch.to_string())),
+        }
+    }
+    out
+}
+fn utf16be(text: &str) -> Vec<u8> {
+    text.encode_utf16().flat_map(|u| u.to_be_bytes()).collect()
+}
+
+struct Model {
+    exp: Vec<Exp>,
+    /// false when a composite without a model took part
+    modelled: bool,
+}
+
+fn model(calls: &[Call], api_errs: &[Option<String>]) -> Model {
+    let black = Col::Gray(0.0);
+    let mut exp: Vec<Exp> = Vec::new();
+    let mut modelled = true;
+    // graphics-context state the API documents
+    let mut fill = black.clone();
+    let mut stroke = black.clone();
+    let mut colours_known = true;
+    let mut gfont: Option<(String, f64, bool)> = None;
+    let mut stack: Vec<(Col, Col, Option<(String, f64, bool)>)> = Vec::new();
+    let mut pending_gs = false;
+    // text-context state
+    let mut tfont = F::Helvetica;
+    let mut tsize = 12.0;
+    let mut tpos = (0.0, 0.0);
+    let mut tparams: Vec<(&'static str, X)> = Vec::new();
+    let mut tfill: Option<Col> = None;
+    let mut tstroke: Option<Col> = None;
+    // page state
+    let mut mcid = 0i64;
+    let mut mc_depth = 0usize;
+    let set_param = |p: &mut Vec<(&'static str, X)>, k: &'static str, v: X| {
+        p.retain(|(kk, _)| *kk != k);
+        p.push((k, v));
+    };
+    for (i, c) in calls.iter().enumerate() {
+        let failed = api_errs.get(i).map(|e| e.is_some()).unwrap_or(false);
+        let flush_gs = |exp: &mut Vec<Exp>, pending: &mut bool| {
+            if *pending {
+                exp.push(Exp::GsAny);
+                *pending = false;
+            }
+        };
+        let kf = |c: &Col, known: bool| if known { Some(c.clone()) } else { None };
+        match c {
+            Call::MoveTo(x, y) => exp.push(Exp::Op("m", vec![n2(*x), n2(*y)])),
+            Call::LineTo(x, y) => exp.push(Exp::Op("l", vec![n2(*x), n2(*y)])),
+            Call::CurveTo(a) => exp.push(Exp::Op("c", a.iter().map(|v| n2(*v)).collect())),
+            Call::Rect(a) => exp.push(Exp::Op("re", a.iter().map(|v| n2(*v)).collect())),
+            Call::ClosePath => exp.push(Exp::Op("h", vec![])),
+            Call::Stroke => {
+                flush_gs(&mut exp, &mut pending_gs);
+                exp.push(Exp::Paint("S", None, kf(&stroke, colours_known)));
+            }
+            Call::Fill => {
+                flush_gs(&mut exp, &mut pending_gs);
+                exp.push(Exp::Paint("f", kf(&fill, colours_known), None));
+            }
+            Call::FillStroke => {
+                flush_gs(&mut exp, &mut pending_gs);
+                exp.push(Exp::Paint("B", kf(&fill, colours_known), kf(&stroke, colours_known)));
+            }
+            Call::EndPath => exp.push(Exp::Op("n", vec![])),
+            Call::Clip => exp.push(Exp::Op("W", vec![])),
+            Call::ClipEvenOdd => exp.push(Exp::Op("W*", vec![])),
+            Call::ClipStroke => {
+                exp.push(Exp::Op("W", vec![]));
+                exp.push(Exp::Paint("S", None, kf(&stroke, colours_known)));
+            }
+            Call::SetStrokeColor(col) => stroke = col.clone(),
+            Call::SetFillColor(col) => fill = col.clone(),
+            Call::LineWidth(w) => exp.push(Exp::Op("w", vec![n2(*w)])),
+            Call::Cap(n) => exp.push(Exp::Op("J", vec![X::Int(*n as i64)])),
+            Call::Join(n) => exp.push(Exp::Op("j", vec![X::Int(*n as i64)])),
+            // §8.4.3.5: a miter limit below 1 is meaningless; the API clamps to >= 1 — both the
+            // issued value and the clamp are accepted
+            Call::Miter(m) => exp.push(Exp::Op("M", vec![if *m >= 1.0 && m.is_finite() { n2(*m) } else { X::NumAny(vec![fz(*m), 1.0], 2) }])),
+            Call::Dash(a, p) => exp.push(Exp::Op("d", vec![X::NumArray(a.clone(), 2), n2(*p)])),
+            Call::LineSolid => exp.push(Exp::Op("d", vec![X::NumArray(vec![], 2), n2(0.0)])),
+            // Table 57: flatness is 0..100; the API clamps — issued value or the clamp accepted
+            Call::Flatness(f) => exp.push(Exp::Op("i", vec![X::NumAny(vec![fz(*f), if f.is_nan() { 0.0 } else { f.clamp(0.0, 100.0) }], 2)])),
+            Call::Intent(i) => exp.push(Exp::Op("ri", vec![X::Name(INTENTS[*i as usize].0.into())])),
+            Call::SetAlpha(_) => {
+                if !failed {
+                    exp.push(Exp::GsAny)
+                }
+            }
+            Call::SetOpacity(a) => {
+                if *a < 1.0 {
+                    pending_gs = true;
+                }
+            }
+            Call::Save => {
+                exp.push(Exp::Op("q", vec![]));
+                stack.push((fill.clone(), stroke.clone(), gfont.clone()));
+            }
+            Call::Restore => {
+                exp.push(Exp::Op("Q", vec![]));
+                match stack.pop() {
+                    Some((f, s, g)) => {
+                        fill = f;
+                        stroke = s;
+                        gfont = g;
+                    }
+                    // Q without q: the graphics state after it is undefined (§8.4.2)
+                    None => colours_known = false,
+                }
+            }
+            Call::Transform(a) => exp.push(Exp::Op("cm", a.iter().map(|v| n2(*v)).collect())),
+            Call::Translate(x, y) => exp.push(Exp::Op("cm", vec![n2(1.0), n2(0.0), n2(0.0), n2(1.0), n2(*x), n2(*y)])),
+            Call::Scale(x, y) => exp.push(Exp::Op("cm", vec![n2(*x), n2(0.0), n2(0.0), n2(*y), n2(0.0), n2(0.0)])),
+            Call::Rotate(a) => {
+                let (s, co) = (a.sin(), a.cos());
+                exp.push(Exp::Op("cm", vec![n2(co), n2(s), n2(-s), n2(co), n2(0.0), n2(0.0)]));
+            }
+            Call::DrawImage(n, a) => {
+                exp.push(Exp::Op("q", vec![]));
+                exp.push(Exp::Op("cm", vec![n2(a[2]), n2(0.0), n2(0.0), n2(a[3]), n2(a[0]), n2(a[1])]));
+                exp.push(Exp::Op("Do", vec![X::Name(n.to_string())]));
+                exp.push(Exp::Op("Q", vec![]));
+            }
+            Call::PaintShading(n) => {
+                flush_gs(&mut exp, &mut pending_gs);
+                exp.push(Exp::Op("sh", vec![X::Name(n.to_string())]));
+            }
+            Call::GBeginText => exp.push(Exp::Op("BT", vec![])),
+            Call::GEndText => exp.push(Exp::Op("ET", vec![])),
+            Call::GSetFont(f, s) => {
+                // Tf size is written with full precision (Display), so 9 decimals of tolerance
+                exp.push(Exp::Op("Tf", vec![X::Name(f.pdf_name().into()), X::Num(*s, 9)]));
+                gfont = Some((f.pdf_name().into(), *s, f.is_custom()));
+            }
+            Call::GTextPos(x, y) => exp.push(Exp::Op("Td", vec![n2(*x), n2(*y)])),
+            Call::GShowText(s) => {
+                let custom = gfont.as_ref().map(|g| g.2).unwrap_or(false);
+                // builtin font: the Tj bytes are pinned when every character is ASCII or has a
+                // WinAnsi code (Annex D.2); otherwise only "one string operand" is required
+                let pinned = s.chars().all(|ch| (ch as u32) < 0x80 || winansi_code(ch).is_some());
+                let x = if custom {
+                    X::Str(utf16be(s))
+                } else if pinned {
+                    X::Str(s.chars().map(|ch| winansi_code(ch).unwrap_or(ch as u32 as u8)).collect())
+                } else {
+                    X::AnyStr
+                };
+                exp.push(Exp::Op("Tj", vec![x]));
+            }
+            Call::GWordSpacing(v) => exp.push(Exp::Op("Tw", vec![n2(*v)])),
+            Call::GCharSpacing(v) => exp.push(Exp::Op("Tc", vec![n2(*v)])),
+            Call::ShowCidArray(els, x, y) => {
+                let glyphs: Vec<u8> = els.iter().flat_map(|e| e.0.to_be_bytes()).collect();
+                exp.push(Exp::LooseText { td: Some((*x, *y)), tj: None, tj_array_glyphs: Some(glyphs) });
+            }
+            Call::Circle(..) => {
+                modelled = false;
+                exp.push(Exp::Unmodelled);
+            }
+            Call::DrawText(s, x, y) => {
+                let custom = gfont.as_ref().map(|g| g.2).unwrap_or(false);
+                if failed {
+                    modelled = false;
+                    exp.push(Exp::Unmodelled);
+                } else if custom || s.chars().any(|c| c as u32 > 255) {
+                    exp.push(Exp::LooseText { td: Some((*x, *y)), tj: Some(utf16be(s)), tj_array_glyphs: None });
+                } else {
+                    // documented: code points 0..=255 are written as that byte
+                    exp.push(Exp::LooseText { td: Some((*x, *y)), tj: Some(s.chars().map(|c| c as u32 as u8).collect()), tj_array_glyphs: None });
+                }
+            }
+            Call::TSetFont(f, s) => {
+                tfont = f.clone();
+                tsize = *s;
+            }
+            Call::TAt(x, y) => tpos = (*x, *y),
+            Call::TWrite(s) => {
+                if failed {
+                    modelled = false;
+                    exp.push(Exp::Unmodelled);
+                } else {
+                    let bytes = if tfont.is_custom() { utf16be(s) } else { expected_winansi(s) };
+                    exp.push(Exp::TextBlock { tf: (tfont.pdf_name().into(), tsize), params: tparams.clone(), td: tpos, tj: Some(bytes), fill: tfill.clone(), stroke: tstroke.clone() });
+                }
+            }
+            Call::TCharSpacing(v) => set_param(&mut tparams, "Tc", n2(*v)),
+            Call::TWordSpacing(v) => set_param(&mut tparams, "Tw", n2(*v)),
+            // documented: the setter takes a ratio, the operator a percentage
+            Call::THScale(v) => set_param(&mut tparams, "Tz", n2(*v * 100.0)),
+            Call::TLeading(v) => set_param(&mut tparams, "TL", n2(*v)),
+            Call::TRise(v) => set_param(&mut tparams, "Ts", n2(*v)),
+            Call::TRenderMode(m) => set_param(&mut tparams, "Tr", X::Int(*m as i64)),
+            Call::TFillColor(col) => tfill = Some(col.clone()),
+            Call::TStrokeColor(col) => tstroke = Some(col.clone()),
+            Call::BeginMC(tag) => {
+                if !failed {
+                    exp.push(Exp::Op("BDC", vec![X::Name(tag.to_string()), X::Dict(vec![("MCID".into(), X::Int(mcid))])]));
+                    mcid += 1;
+                    mc_depth += 1;
+                }
+            }
+            Call::BeginMCActual(tag, t) => {
+                if !failed {
+                    let mut s = vec![0xFE, 0xFF];
+                    s.extend(utf16be(t));
+                    exp.push(Exp::Op("BDC", vec![X::Name(tag.to_string()), X::Dict(vec![("MCID".into(), X::Int(mcid)), ("ActualText".into(), X::Str(s))])]));
+                    mcid += 1;
+                    mc_depth += 1;
+                }
+            }
+            Call::EndMC => {
+                if mc_depth > 0 && !failed {
+                    exp.push(Exp::Op("EMC", vec![]));
+                    mc_depth -= 1;
+                }
+            }
+        }
+    }
+    Model { exp, modelled }
+}
+
+// ------------------------------------------------------------------ matching parsed against expected
+
+fn num_ok(got: &Obj, want: f64, d: u32) -> bool {
+    let Some(g) = got.as_num() else { return false };
+    let w = fz(want);
+    let half = 0.5 * 10f64.powi(-(d as i32));
+    (g - w).abs() <= half * (1.0 + 1e-9) + w.abs() * 4e-16
+}
+fn x_ok(got: &Obj, want: &X) -> bool {
+    match want {
+        X::Num(v, d) => num_ok(got, *v, *d),
+        X::NumAny(vs, d) => vs.iter().any(|v| num_ok(got, *v, *d)),
+        X::Int(i) => matches!(got, Obj::Int(g) if g == i),
+        X::Name(n) => matches!(got, Obj::Name(g) if g.as_slice() == n.as_bytes()),
+        X::Str(s) => matches!(got, Obj::Str(g) if g == s),
+        X::AnyStr => matches!(got, Obj::Str(_)),
+        X::NumArray(vs, d) => matches!(got, Obj::Array(a) if a.len() == vs.len() && a.iter().zip(vs).all(|(g, v)| num_ok(g, *v, *d))),
+        X::Dict(es) => match got {
+            Obj::Dict(dd) => dd.len() == es.len() && !dd.has_duplicates() && es.iter().all(|(k, v)| dd.get(k).map(|g| x_ok(g, v)).unwrap_or(false)),
+            _ => false,
+        },
+    }
+}
+
+/// colour in force: (operator name, components)
+type Eff = Option<(Vec<u8>, Vec<f64>)>;
+
+fn col_ok(eff: &Eff, want: &Col, stroking: bool) -> bool {
+    let Some((op, comps)) = eff else {
+        // nothing set in the stream: the initial colour is black in DeviceGray (§8.6.3 Table 52)
+        return *want == Col::Gray(0.0);
+    };
+    let name: &[u8] = match (want, stroking) {
+        (Col::Gray(_), false) => b"g",
+        (Col::Gray(_), true) => b"G",
+        (Col::Rgb(..), false) => b"rg",
+        (Col::Rgb(..), true) => b"RG",
+        (Col::Cmyk(..), false) => b"k",
+        (Col::Cmyk(..), true) => b"K",
+    };
+    let w = want.comps();
+    op.as_slice() == name && comps.len() == w.len() && comps.iter().zip(&w).all(|(g, v)| (g - fz(*v)).abs() <= 0.0005 * (1.0 + 1e-9) + fz(*v).abs() * 4e-16)
+}
+
+/// Strip colour operators, attaching to every remaining operator the colours in force.
+fn strip_colours(ops: &[ROp]) -> Vec<(ROp, Eff, Eff)> {
+    let mut out = Vec::new();
+    let (mut fill, mut stroke): (Eff, Eff) = (None, None);
+    let mut stack: Vec<(Eff, Eff)> = Vec::new();
+    for op in ops {
+        let nums: Option<Vec<f64>> = op.operands.iter().map(|o| o.as_num()).collect();
+        match op.operator.as_slice() {
+            b"g" | b"rg" | b"k" => {
+                fill = Some((op.operator.clone(), nums.unwrap_or_default()));
+                continue;
+            }
+            b"G" | b"RG" | b"K" => {
+                stroke = Some((op.operator.clone(), nums.unwrap_or_default()));
+                continue;
+            }
+            b"q" => stack.push((fill.clone(), stroke.clone())),
+            b"Q" => {
+                if let Some((f, s)) = stack.pop() {
+                    fill = f;
+                    stroke = s;
+                }
+            }
+            _ => {}
+        }
+        out.push((op.clone(), fill.clone(), stroke.clone()));
+    }
+    out
+}
+
+/// Layer (c). `Err((what, detail))`.
+fn match_model(ops: &[ROp], exp: &[Exp]) -> Result<(), (String, String)> {
+    let s = strip_colours(ops);
+    let mut i = 0usize;
+    let show = |i: usize| s.get(i).map(|x| format!("{:?}", x.0)).unwrap_or_else(|| "<end of stream>".into());
+    for (k, e) in exp.iter().enumerate() {
+        match e {
+            Exp::Unmodelled => return Ok(()),
+            Exp::Op(name, xs) => {
+                let Some((op, _, _)) = s.get(i) else { return Err(("operator-missing".into(), format!("expected #{k} {e:?}, stream ended"))) };
+                if op.operator != name.as_bytes() {
+                    return Err(("operator-differs".into(), format!("expected #{k} {e:?}, got {}", show(i))));
+                }
+                if op.operands.len() != xs.len() || !op.operands.iter().zip(xs).all(|(g, w)| x_ok(g, w)) {
+                    return Err((format!("operands-differ-{name}"), format!("expected #{k} {e:?}, got {}", show(i))));
+                }
+                i += 1;
+            }
+            Exp::GsAny => {
+                let ok = s.get(i).map(|(op, _, _)| op.is("gs") && op.operands.len() == 1 && matches!(op.operands[0], Obj::Name(_))).unwrap_or(false);
+                if !ok {
+                    return Err(("operator-differs".into(), format!("expected #{k} '/name gs', got {}", show(i))));
+                }
+                i += 1;
+            }
+            Exp::Paint(name, f, st) => {
+                let Some((op, ef, es)) = s.get(i) else { return Err(("operator-missing".into(), format!("expected #{k} {e:?}, stream ended"))) };
+                if op.operator != name.as_bytes() || !op.operands.is_empty() {
+                    return Err(("operator-differs".into(), format!("expected #{k} {e:?}, got {}", show(i))));
+                }
+                if let Some(f) = f {
+                    if !col_ok(ef, f, false) {
+                        return Err(("fill-colour-at-paint".into(), format!("at '{name}' (#{k}) fill colour in force is {ef:?}, API set {f:?}")));
+                    }
+                }
+                if let Some(st) = st {
+                    if !col_ok(es, st, true) {
+                        return Err(("stroke-colour-at-paint".into(), format!("at '{name}' (#{k}) stroke colour in force is {es:?}, API set {st:?}")));
+                    }
+                }
+                i += 1;
+            }
+            Exp::TextBlock { tf, params, td, tj, fill, stroke } => {
+                if !s.get(i).map(|x| x.0.is("BT")).unwrap_or(false) {
+                    return Err(("operator-differs".into(), format!("expected #{k} BT of a write(), got {}", show(i))));
+                }
+                i += 1;
+                let start = i;
+                while i < s.len() && !s[i].0.is("ET") {
+                    i += 1;
+                }
+                if i >= s.len() {
+                    return Err(("operator-missing".into(), format!("write() #{k}: no ET")));
+                }
+                let inner = &s[start..i];
+                i += 1;
+                let count = |n: &str| inner.iter().filter(|x| x.0.is(n)).count();
+                let pos = |n: &str| inner.iter().position(|x| x.0.is(n));
+                let tjpos = pos("Tj");
+                if count("Tj") != 1 || count("Tf") != 1 || count("Td") != 1 {
+                    return Err(("text-block-shape".into(), format!("write() #{k}: expected one Tf, Td, Tj inside BT/ET, got {:?}", inner.iter().map(|x| x.0.name()).collect::<Vec<_>>())));
+                }
+                let tjpos = tjpos.unwrap();
+                let tfop = &inner[pos("Tf").unwrap()].0;
+                if !(tfop.operands.len() == 2 && x_ok(&tfop.operands[0], &X::Name(tf.0.clone())) && num_ok(&tfop.operands[1], tf.1, 9)) {
+                    return Err(("operands-differ-Tf".into(), format!("write() #{k}: expected /{} {} Tf, got {tfop:?}", tf.0, tf.1)));
+                }
+                let tdop = &inner[pos("Td").unwrap()].0;
+                if !(tdop.operands.len() == 2 && num_ok(&tdop.operands[0], td.0, 2) && num_ok(&tdop.operands[1], td.1, 2)) {
+                    return Err(("operands-differ-Td".into(), format!("write() #{k}: expected {} {} Td, got {tdop:?}", td.0, td.1)));
+                }
+                for (pn, pv) in params {
+                    let hits: Vec<usize> = inner.iter().enumerate().filter(|(_, x)| x.0.is(pn)).map(|(j, _)| j).collect();
+                    if hits.len() != 1 || hits[0] > tjpos {
+                        return Err((format!("text-state-{pn}-missing"), format!("write() #{k}: expected exactly one {pn} before Tj, got {:?}", inner.iter().map(|x| x.0.name()).collect::<Vec<_>>())));
+                    }
+                    let o = &inner[hits[0]].0;
+                    if !(o.operands.len() == 1 && x_ok(&o.operands[0], pv)) {
+                        return Err((format!("operands-differ-{pn}"), format!("write() #{k}: expected {pv:?} {pn}, got {o:?}")));
+                    }
+                }
+                for n in ["Tc", "Tw", "Tz", "TL", "Ts", "Tr"] {
+                    if !params.iter().any(|(p, _)| *p == n) && count(n) > 0 {
+                        return Err((format!("text-state-{n}-unrequested"), format!("write() #{k}: {n} emitted but never set")));
+                    }
+                }
+                let (tjop, ef, es) = &inner[tjpos];
+                if let Some(want) = tj {
+                    if !(tjop.operands.len() == 1 && x_ok(&tjop.operands[0], &X::Str(want.clone()))) {
+                        return Err(("tj-string".into(), format!("write() #{k}: expected Tj string {}, got {tjop:?}", vx::show_bytes(want, 64))));
+                    }
+                }
+                if let Some(f) = fill {
+                    if !col_ok(ef, f, false) {
+                        return Err(("fill-colour-at-text".into(), format!("write() #{k}: fill colour in force at Tj is {ef:?}, text().set_fill_color gave {f:?}")));
+                    }
+                }
+                if let Some(st) = stroke {
+                    if !col_ok(es, st, true) {
+                        return Err(("stroke-colour-at-text".into(), format!("write() #{k}: stroke colour in force at Tj is {es:?}, text().set_stroke_color gave {st:?}")));
+                    }
+                }
+            }
+            Exp::LooseText { td, tj, tj_array_glyphs } => {
+                if !s.get(i).map(|x| x.0.is("BT")).unwrap_or(false) {
+                    return Err(("operator-differs".into(), format!("expected #{k} BT of a composite, got {}", show(i))));
+                }
+                i += 1;
+                let start = i;
+                while i < s.len() && !s[i].0.is("ET") {
+                    i += 1;
+                }
+                if i >= s.len() {
+                    return Err(("operator-missing".into(), format!("composite #{k}: no ET")));
+                }
+                let inner = &s[start..i];
+                i += 1;
+                if let Some((x, y)) = td {
+                    let ok = inner.iter().filter(|o| o.0.is("Td")).count() == 1 && inner.iter().any(|o| o.0.is("Td") && o.0.operands.len() == 2 && num_ok(&o.0.operands[0], *x, 2) && num_ok(&o.0.operands[1], *y, 2));
+                    if !ok {
+                        return Err(("operands-differ-Td".into(), format!("composite #{k}: expected {x} {y} Td, got {:?}", inner.iter().map(|o| format!("{:?}", o.0)).collect::<Vec<_>>())));
+                    }
+                }
+                if let Some(want) = tj {
+                    let got: Vec<&ROp> = inner.iter().map(|o| &o.0).filter(|o| o.is("Tj")).collect();
+                    if !(got.len() == 1 && got[0].operands.len() == 1 && x_ok(&got[0].operands[0], &X::Str(want.clone()))) {
+                        return Err(("tj-string".into(), format!("composite #{k}: expected Tj string {}, got {got:?}", vx::show_bytes(want, 64))));
+                    }
+                }
+                if let Some(want) = tj_array_glyphs {
+                    let got: Vec<&ROp> = inner.iter().map(|o| &o.0).filter(|o| o.is("TJ")).collect();
+                    let concat: Option<Vec<u8>> = if got.len() == 1 { got[0].operands.first().and_then(|a| a.as_array()).map(|a| a.iter().filter_map(|e| e.as_str_bytes()).flatten().copied().collect()) } else { None };
+                    if concat.as_ref() != Some(want) {
+                        return Err(("tj-array-glyphs".into(), format!("composite #{k}: TJ glyph bytes {concat:?}, expected {want:?}")));
+                    }
+                }
+            }
+        }
+    }
+    if i != s.len() {
+        return Err(("operator-extra".into(), format!("unexpected operator after the modelled ones: {}", show(i))));
+    }
+    Ok(())
+}
+
+// ------------------------------------------------------------------ layer (a): refpdf op -> library op
+
+fn mc_value(o: &Obj) -> Option<MarkedContentValue> {
+    Some(match o {
+        Obj::Str(s) => MarkedContentValue::String(s.clone()),
+        Obj::Int(i) => MarkedContentValue::Integer(*i),
+        Obj::Real(r) => MarkedContentValue::Real(*r as f32 as f64),
+        Obj::Name(n) => MarkedContentValue::Name(String::from_utf8(n.clone()).ok()?),
+        Obj::Array(a) => MarkedContentValue::Array(a.iter().map(mc_value).collect::<Option<Vec<_>>>()?),
+        Obj::Dict(d) => {
+            let mut m = HashMap::new();
+            for (k, v) in d.iter() {
+                m.insert(String::from_utf8(k.clone()).ok()?, mc_value(v)?);
+            }
+            MarkedContentValue::Dict(m)
+        }
+        _ => return None,
+    })
+}
+
+/// Convert a well-formed refpdf operator to the library's representation. `None` = not
+/// well-formed by Annex A (layer (b) reports it) or outside the library's operator enum.
+fn to_lib(op: &ROp) -> Option<ContentOperation> {
+    use ContentOperation as C;
+    if rc::check_operands(&op.operator, &op.operands).is_err() {
+        return None;
+    }
+    let n = |i: usize| op.operands[i].as_num().unwrap() as f32;
+    let int = |i: usize| op.operands[i].as_int().and_then(|v| i32::try_from(v).ok());
+    let name = |i: usize| String::from_utf8(op.operands[i].as_name().unwrap().to_vec()).ok();
+    let s = |i: usize| op.operands[i].as_str_bytes().unwrap().to_vec();
+    let props = |i: usize| -> Option<MarkedContentProps> {
+        match &op.operands[i] {
+            Obj::Name(nm) => Some(MarkedContentProps::ResourceRef(String::from_utf8(nm.clone()).ok()?)),
+            Obj::Dict(d) => {
+                let mut m = HashMap::new();
+                for (k, v) in d.iter() {
+                    m.insert(String::from_utf8(k.clone()).ok()?, mc_value(v)?);
+                }
+                Some(MarkedContentProps::Inline(m))
+            }
+            _ => None,
+        }
+    };
+    let comps = || -> Vec<f32> { op.operands.iter().filter_map(|o| o.as_num()).map(|v| v as f32).collect() };
+    Some(match op.operator.as_slice() {
+        b"BT" => C::BeginText,
+        b"ET" => C::EndText,
+        b"Tc" => C::SetCharSpacing(n(0)),
+        b"Tw" => C::SetWordSpacing(n(0)),
+        b"Tz" => C::SetHorizontalScaling(n(0)),
+        b"TL" => C::SetLeading(n(0)),
+        b"Tf" => C::SetFont(name(0)?, n(1)),
+        b"Tr" => C::SetTextRenderMode(int(0)?),
+        b"Ts" => C::SetTextRise(n(0)),
+        b"Td" => C::MoveText(n(0), n(1)),
+        b"TD" => C::MoveTextSetLeading(n(0), n(1)),
+        b"Tm" => C::SetTextMatrix(n(0), n(1), n(2), n(3), n(4), n(5)),
+        b"T*" => C::NextLine,
+        b"Tj" => C::ShowText(s(0)),
+        b"TJ" => C::ShowTextArray(
+            op.operands[0]
+                .as_array()?
+                .iter()
+                .map(|e| match e {
+                    Obj::Str(b) => TextElement::Text(b.clone()),
+                    other => TextElement::Spacing(other.as_num().unwrap() as f32),
+                })
+                .collect(),
+        ),
+        b"'" => C::NextLineShowText(s(0)),
+        b"\"" => C::SetSpacingNextLineShowText(n(0), n(1), s(2)),
+        b"q" => C::SaveGraphicsState,
+        b"Q" => C::RestoreGraphicsState,
+        b"cm" => C::SetTransformMatrix(n(0), n(1), n(2), n(3), n(4), n(5)),
+        b"w" => C::SetLineWidth(n(0)),
+        b"J" => C::SetLineCap(int(0)?),
+        b"j" => C::SetLineJoin(int(0)?),
+        b"M" => C::SetMiterLimit(n(0)),
+        b"d" => C::SetDashPattern(op.operands[0].as_array()?.iter().map(|v| v.as_num().unwrap() as f32).collect(), n(1)),
+        b"ri" => C::SetIntent(name(0)?),
+        b"i" => C::SetFlatness(n(0)),
+        b"gs" => C::SetGraphicsStateParams(name(0)?),
+        b"m" => C::MoveTo(n(0), n(1)),
+        b"l" => C::LineTo(n(0), n(1)),
+        b"c" => C::CurveTo(n(0), n(1), n(2), n(3), n(4), n(5)),
+        b"v" => C::CurveToV(n(0), n(1), n(2), n(3)),
+        b"y" => C::CurveToY(n(0), n(1), n(2), n(3)),
+        b"h" => C::ClosePath,
+        b"re" => C::Rectangle(n(0), n(1), n(2), n(3)),
+        b"S" => C::Stroke,
+        b"s" => C::CloseStroke,
+        b"f" | b"F" => C::Fill,
+        b"f*" => C::FillEvenOdd,
+        b"B" => C::FillStroke,
+        b"B*" => C::FillStrokeEvenOdd,
+        b"b" => C::CloseFillStroke,
+        b"b*" => C::CloseFillStrokeEvenOdd,
+        b"n" => C::EndPath,
+        b"W" => C::Clip,
+        b"W*" => C::ClipEvenOdd,
+        b"CS" => C::SetStrokingColorSpace(name(0)?),
+        b"cs" => C::SetNonStrokingColorSpace(name(0)?),
+        b"SC" => C::SetStrokingColor(comps()),
+        b"sc" => C::SetNonStrokingColor(comps()),
+        // SCN/scn with a pattern name: the library's enum has no place for the name
+        b"SCN" if !matches!(op.operands.last(), Some(Obj::Name(_))) => C::SetStrokingColor(comps()),
+        b"scn" if !matches!(op.operands.last(), Some(Obj::Name(_))) => C::SetNonStrokingColor(comps()),
+        b"G" => C::SetStrokingGray(n(0)),
+        b"g" => C::SetNonStrokingGray(n(0)),
+        b"RG" => C::SetStrokingRGB(n(0), n(1), n(2)),
+        b"rg" => C::SetNonStrokingRGB(n(0), n(1), n(2)),
+        b"K" => C::SetStrokingCMYK(n(0), n(1), n(2), n(3)),
+        b"k" => C::SetNonStrokingCMYK(n(0), n(1), n(2), n(3)),
+        b"sh" => C::ShadingFill(name(0)?),
+        b"Do" => C::PaintXObject(name(0)?),
+        b"BMC" => C::BeginMarkedContent(name(0)?),
+        b"BDC" => C::BeginMarkedContentWithProps(name(0)?, props(1)?),
+        b"EMC" => C::EndMarkedContent,
+        b"MP" => C::DefineMarkedContentPoint(name(0)?),
+        b"DP" => C::DefineMarkedContentPointWithProps(name(0)?, props(1)?),
+        b"BX" => C::BeginCompatibility,
+        b"EX" => C::EndCompatibility,
+        _ => return None,
+    })
+}
+
+// ------------------------------------------------------------------ the three layers on one emitted stream
+
+struct Verdict {
+    /// (key suffix, detail)
+    fails: Vec<(String, String)>,
+    n_ops: usize,
+    outcome: u64,
+}
+
+/// Names handed to the API that cannot be written verbatim after a '/' (§7.3.5: anything
+/// outside '!'..'~', delimiters and '#' need the #xx form).
+fn names_needing_escape(calls: &[Call]) -> Vec<&'static str> {
+    let bad = |n: &str| n.is_empty() || n.bytes().any(|b| !(0x21..=0x7e).contains(&b) || refpdf::syntax::is_delim(b) || b == b'#');
+    calls
+        .iter()
+        .filter_map(|c| match c {
+            Call::BeginMC(t) | Call::BeginMCActual(t, _) => Some(*t),
+            Call::DrawImage(n, _) | Call::PaintShading(n) => Some(*n),
+            Call::GSetFont(F::Custom(n), _) | Call::TSetFont(F::Custom(n), _) => Some(*n),
+            _ => None,
+        })
+        .filter(|n| bad(n))
+        .collect()
+}
+
+/// Known-defect signature 1: a name that needs escaping appears verbatim after '/' in the stream.
+fn raw_name_signature(calls: &[Call], content: &[u8]) -> bool {
+    names_needing_escape(calls).iter().any(|n| {
+        let mut pat = vec![b'/'];
+        pat.extend_from_slice(n.as_bytes());
+        content.windows(pat.len()).any(|w| w == pat.as_slice())
+    })
+}
+
+/// Known-defect signature 2: the parsed operators are exactly the issued ones, the marked-content
+/// operators (BDC/EMC) among themselves and all other operators among themselves are in call
+/// order — only the interleaving of the two groups differs.
+fn mc_reorder_signature(ops: &[ROp], exp: &[Exp], prefix: bool) -> bool {
+    let is_mc_op = |o: &ROp| o.is("BDC") || o.is("EMC");
+    let is_mc_exp = |e: &Exp| matches!(e, Exp::Op(n, _) if *n == "BDC" || *n == "EMC");
+    if !exp.iter().any(is_mc_exp) || exp.iter().all(is_mc_exp) {
+        return false;
+    }
+    let (mc_ops, other_ops): (Vec<ROp>, Vec<ROp>) = ops.iter().cloned().partition(|o| is_mc_op(o));
+    let (mc_exp, other_exp): (Vec<Exp>, Vec<Exp>) = exp.iter().cloned().partition(|e| is_mc_exp(e));
+    let tolerant = |r: Result<(), (String, String)>| match r {
+        Ok(()) => true,
+        Err((w, _)) => prefix && w == "operator-extra",
+    };
+    tolerant(match_model(&mc_ops, &mc_exp)) && tolerant(match_model(&other_ops, &other_exp))
+}
+
+/// Known-defect signature 3: `GraphicsContext::show_text` with a builtin font wrote the UTF-8
+/// bytes of a non-ASCII string.
+fn gfx_utf8_signature(calls: &[Call], ops: &[ROp]) -> bool {
+    calls.iter().any(|c| match c {
+        Call::GShowText(s) if !s.is_ascii() => ops.iter().any(|o| o.is("Tj") && o.operands.first().and_then(|x| x.as_str_bytes()) == Some(s.as_bytes())),
+        _ => false,
+    })
+}
+
+fn judge(calls: &[Call], content: &[u8], api_errs: &[Option<String>]) -> Verdict {
+    let mut fails: Vec<(String, String)> = Vec::new();
+    let shown = || vx::show_bytes(content, 400);
+    let esc = raw_name_signature(calls, content);
+    // independent parse
+    let (rops, issues) = match rc::parse_content_strict(content) {
+        Ok(x) => x,
+        Err(e) => {
+            let key = if esc { "name-written-unescaped" } else { "emitted-stream-does-not-tokenise" };
+            fails.push((key.into(), format!("refpdf: {e}; stream={}", shown())));
+            return Verdict { fails, n_ops: 0, outcome: vx::h64(&("tokenise", esc)) };
+        }
+    };
+    // (b)
+    let hard: Vec<&rc::Issue> = issues.iter().filter(|i| i.kind != IssueKind::Nesting).collect();
+    if let Some(first) = hard.first() {
+        let key = if esc {
+            "name-written-unescaped".to_string()
+        } else {
+            format!("emitted-invalid-{:?}", first.kind)
+        };
+        fails.push((key, format!("{} issue(s), first: {:?} {}; stream={}", hard.len(), first.kind, first.msg, shown())));
+    }
+    // (a)
+    let lib = vx::guard(|| ContentParser::parse(content));
+    match lib {
+        Err(p) => fails.push(("library-parser-panics-on-own-output".into(), format!("{p}; stream={}", shown()))),
+        Ok(Err(e)) => fails.push(("library-parser-rejects-own-output".into(), format!("{e}; stream={}", shown()))),
+        Ok(Ok(lops)) => {
+            let conv: Vec<Option<ContentOperation>> = rops.iter().map(to_lib).collect();
+            if conv.iter().all(|c| c.is_some()) {
+                let want: Vec<ContentOperation> = conv.into_iter().flatten().collect();
+                if want != lops {
+                    let at = want.iter().zip(&lops).position(|(a, b)| a != b).unwrap_or(want.len().min(lops.len()));
+                    let key = if esc { "name-written-unescaped" } else { "parsers-disagree-on-emitted-stream" };
+                    fails.push((key.into(), format!("operator #{at}: refpdf {:?} / library {:?} (lengths {} / {}); stream={}", want.get(at), lops.get(at), want.len(), lops.len(), shown())));
+                }
+            } else if hard.is_empty() {
+                let at = conv.iter().position(|c| c.is_none()).unwrap();
+                fails.push(("MACHINERY-to_lib-gap".into(), format!("refpdf operator {:?} passes the strict check but has no library form", rops[at])));
+            }
+        }
+    }
+    // (c)
+    let m = model(calls, api_errs);
+    if m.modelled || m.exp.iter().any(|e| !matches!(e, Exp::Unmodelled)) {
+        let upto: Vec<Exp> = m.exp.iter().take_while(|e| !matches!(e, Exp::Unmodelled)).cloned().collect();
+        let r = if m.modelled { match_model(&rops, &m.exp) } else { match_model_prefix(&rops, &upto) };
+        if let Err((what, detail)) = r {
+            let key = if esc {
+                "name-written-unescaped".to_string()
+            } else if mc_reorder_signature(&rops, &upto, !m.modelled) {
+                "marked-content-operators-reordered-against-graphics-operators".to_string()
+            } else if (what == "operands-differ-Tj" || what == "tj-string") && gfx_utf8_signature(calls, &rops) {
+                "gfx-show-text-writes-utf8-bytes-for-builtin-font".to_string()
+            } else {
+                format!("issued-vs-parsed-{what}")
+            };
+            if !fails.iter().any(|f| f.0 == key) {
+                fails.push((key, format!("{detail}; stream={}", shown())));
+            }
+        }
+    }
+    if esc {
+        // one defect, one key: everything a verbatim name breaks is reported once
+        let detail = fails.iter().map(|f| f.1.clone()).next();
+        fails.clear();
+        if let Some(d) = detail {
+            fails.push(("name-written-unescaped".into(), d));
+        }
+    }
+    let outcome = vx::h64(&(rops.iter().map(|o| o.operator.clone()).collect::<Vec<_>>(), fails.iter().map(|f| f.0.clone()).collect::<Vec<_>>()));
+    Verdict { fails, n_ops: rops.len(), outcome }
+}
+
+/// Layer (c) for a sequence that ends in an unmodelled composite: the modelled prefix must match.
+fn match_model_prefix(ops: &[ROp], exp: &[Exp]) -> Result<(), (String, String)> {
+    match match_model(ops, exp) {
+        Err((w, _)) if w == "operator-extra" => Ok(()),
+        other => other,
+    }
+}
+
+fn run_case(c: &mut Ctx, calls: &[Call]) {
+    c.input(vx::h64(&format!("{calls:?}")));
+    match emit(calls) {
+        Err(e) => {
+            let key = if e.starts_with("panic") { "C21/writer-panics" } else { "C21/page-cannot-be-written-or-read-back" };
+            c.outcome(vx::h64(&("emit-err", e.split(':').next().unwrap_or("").to_string())));
+            c.fail(key, format!("calls={calls:?}: {e}"));
+        }
+        Ok((content, errs)) => {
+            let v = judge(calls, &content, &errs);
+            c.outcome(v.outcome);
+            if v.n_ops > 0 {
+                c.nontrivial();
+            }
+            for (k, d) in &v.fails {
+                c.fail(format!("C21/{k}"), format!("calls={calls:?}: {d}"));
+            }
+            if c.want_sample() {
+                c.sample(json!({"calls": format!("{calls:?}"), "content": vx::show_bytes(&content, 300), "ops": v.n_ops}));
+            }
+        }
+    }
+}
+
+// ------------------------------------------------------------------ vocabulary
+
+fn vocab(thorough: bool) -> Vec<Call> {
+    let mut v = vec![
+        Call::MoveTo(12.5, -0.0),
+        Call::MoveTo(NAN, 1e9),
+        Call::LineTo(0.005, -1e-9),
+        Call::LineTo(INF, -INF),
+        Call::CurveTo([12.5, 0.0, 0.005, -0.0, 1e9, -1e-9]),
+        Call::CurveTo([NAN, INF, -INF, 12.5, NAN, 0.005]),
+        Call::Rect([0.0, -0.0, 12.5, 1e9]),
+        Call::Rect([-1e-9, NAN, INF, 0.005]),
+        Call::ClosePath,
+        Call::Stroke,
+        Call::Fill,
+        Call::FillStroke,
+        Call::EndPath,
+        Call::Clip,
+        Call::ClipEvenOdd,
+        Call::ClipStroke,
+        Call::SetStrokeColor(Col::Gray(0.5)),
+        Call::SetStrokeColor(Col::Rgb(NAN, 0.005, 1e9)),
+        Call::SetFillColor(Col::Cmyk(0.0, -0.0, INF, -1e-9)),
+        Call::SetFillColor(Col::Rgb(1.0, 0.25, 0.0)),
+        Call::SetFillColor(Col::Gray(-INF)),
+        Call::LineWidth(0.005),
+        Call::LineWidth(NAN),
+        Call::Cap(1),
+        Call::Join(2),
+        Call::Miter(1e9),
+        Call::Miter(NAN),
+        Call::Dash(vec![3.0, 0.005], 1e9),
+        Call::Dash(vec![NAN, INF], -INF),
+        Call::LineSolid,
+        Call::Flatness(0.005),
+        Call::Intent(3),
+        Call::SetAlpha(0.5),
+        Call::SetOpacity(0.5),
+        Call::Save,
+        Call::Restore,
+        Call::Transform([1.0, 0.0, -0.0, 1.0, 0.005, 1e9]),
+        Call::Transform([NAN, INF, -INF, -1e-9, 12.5, 0.0]),
+        Call::Translate(0.005, 1e9),
+        Call::Scale(-0.0, -1e-9),
+        Call::Rotate(0.5),
+        Call::Rotate(NAN),
+        Call::DrawImage("Im1", [12.5, 0.005, 1e9, -1e-9]),
+        Call::DrawImage("Im1", [NAN, INF, -INF, -0.0]),
+        Call::PaintShading("Sh1"),
+        Call::GBeginText,
+        Call::GEndText,
+        Call::GSetFont(F::Helvetica, 12.5),
+        Call::GSetFont(F::Courier, 1e9),
+        Call::GSetFont(F::Custom("F7"), -1e-9),
+        Call::GTextPos(12.5, 0.005),
+        Call::GTextPos(NAN, -INF),
+        Call::GShowText("A(b)\\c".into()),
+        Call::GShowText("\u{0}\r\n\t\u{8}\u{c}~".into()),
+        Call::GWordSpacing(0.005),
+        Call::GCharSpacing(NAN),
+        Call::ShowCidArray(vec![(0x41, 0.0, 0.0), (0x42, -50.0, 0.0), (0xFFFF, f32::NAN, 0.0), (0, 0.0, 12.5)], 12.5, INF),
+        Call::TSetFont(F::TimesRoman, 9.0),
+        Call::TSetFont(F::Custom("F7"), 12.0),
+        Call::TAt(12.5, 0.005),
+        Call::TAt(NAN, 1e9),
+        Call::TWrite("Hi (x) \\ \u{e9}\u{20ac}".into()),
+        Call::TWrite("\u{1}\r\n\u{1d11e}".into()),
+        Call::TCharSpacing(0.005),
+        Call::TWordSpacing(1e9),
+        Call::THScale(NAN),
+        Call::THScale(0.5),
+        Call::TLeading(-1e-9),
+        Call::TRise(INF),
+        Call::TRenderMode(1),
+        Call::TFillColor(Col::Rgb(0.0, 0.005, 1.0)),
+        Call::TStrokeColor(Col::Gray(NAN)),
+        Call::BeginMC("P"),
+        Call::BeginMCActual("Span", "fi\u{e9}\u{1d11e})"),
+        Call::EndMC,
+        Call::Circle(12.5, 0.005, 1e9),
+        Call::DrawText("a(\u{e9})".into(), 12.5, NAN),
+    ];
+    if thorough {
+        v.extend([
+            Call::Cap(0),
+            Call::Join(1),
+            Call::Intent(0),
+            Call::TRenderMode(7),
+            Call::Flatness(1e9),
+            Call::Miter(0.005),
+            Call::SetOpacity(NAN),
+            Call::Scale(INF, 12.5),
+            Call::GWordSpacing(-INF),
+            Call::TRise(0.005),
+            Call::TLeading(1e9),
+            Call::DrawText("\u{4e2d}".into(), 0.0, 0.0),
+        ]);
+    }
+    v
+}
+
+// ------------------------------------------------------------------ parser half
+
+const ALPHABET: [u8; 24] = [b' ', b'\n', 0x00, b'(', b')', b'\\', b'<', b'>', b'[', b']', b'/', b'%', b'#', b'{', b'}', b'0', b'9', b'-', b'.', b'T', b'j', b'B', b'I', 0xFF];
+
+const HAND_STREAM: &[u8] = b"q 1 0 0 1 72.5 -3 cm /GS1 gs [3 1.5] 0 d 0.2 0.4 0.6 rg\n10 10 m 20 20 l 1 2 3 4 5 6 c h W* n % comment ( [\nBT /F1 12 Tf 1 0 0 1 10 700 Tm 14 TL (a\\(b\\)\\\\\\101\\n) Tj T* [(x) -120 <00FF41> 5.5] TJ (q)' 1 2 (r)\" ET\n/Span <</ActualText <FEFF0066> /MCID 3 /K [1 /N (s)] /D <</E 1>>>> BDC /Im1 Do EMC\nBI /W 2 /H 2 /BPC 8 /CS /G /F [/AHx] ID 00ff 80EI> \nEI 0 0 10 10 re f* Q";
+
+struct Watch {
+    slots: Vec<Mutex<Option<(std::time::Instant, Vec<u8>)>>>,
+    next: AtomicU64,
+}
+thread_local! { static SLOT: std::cell::Cell<usize> = const { std::cell::Cell::new(usize::MAX) }; }
+impl Watch {
+    fn new() -> Arc<Watch> {
+        let w = Arc::new(Watch { slots: (0..512).map(|_| Mutex::new(None)).collect(), next: AtomicU64::new(0) });
+        let w2 = w.clone();
+        std::thread::spawn(move || loop {
+            std::thread::sleep(std::time::Duration::from_millis(500));
+            for s in &w2.slots {
+                if let Some((t, input)) = &*s.lock().unwrap() {
+                    if t.elapsed().as_secs() >= 20 {
+                        eprintln!("VIOLATION property=C21 key=C21/content-parser-does-not-terminate input={}", vx::hex(input));
+                        std::process::exit(1);
+                    }
+                }
+            }
+        });
+        w
+    }
+    fn run<T>(&self, input: &[u8], f: impl FnOnce() -> T) -> T {
+        let slot = SLOT.with(|s| {
+            if s.get() == usize::MAX {
+                s.set((self.next.fetch_add(1, Ordering::Relaxed) as usize) % self.slots.len());
+            }
+            s.get()
+        });
+        *self.slots[slot].lock().unwrap() = Some((std::time::Instant::now(), input.to_vec()));
+        let r = f();
+        *self.slots[slot].lock().unwrap() = None;
+        r
+    }
+}
+
+/// returns an outcome class: 0 = Ok, 1 = Err, 2 = panic (message)
+fn parse_terminates(w: &Watch, input: &[u8]) -> (u8, String) {
+    match w.run(input, || vx::guard(|| ContentParser::parse(input).map(|v| v.len()))) {
+        Ok(Ok(n)) => (0, n.to_string()),
+        Ok(Err(e)) => (1, e.to_string()),
+        Err(p) => (2, p),
+    }
+}
+
+fn real_streams() -> Vec<(String, Vec<u8>)> {
+    let mut v = Vec::new();
+    // 1: a stream the library itself emits
+    let calls = vec![
+        Call::Save,
+        Call::Transform([1.0, 0.0, 0.0, 1.0, 72.0, 72.0]),
+        Call::SetFillColor(Col::Rgb(1.0, 0.25, 0.0)),
+        Call::Rect([0.0, 0.0, 100.0, 50.0]),
+        Call::FillStroke,
+        Call::Dash(vec![3.0, 2.0], 1.0),
+        Call::BeginMCActual("Span", "fi"),
+        Call::TSetFont(F::TimesRoman, 9.0),
+        Call::TAt(10.0, 700.0),
+        Call::TWrite("Hi (x) \\ \u{e9}".into()),
+        Call::EndMC,
+        Call::ShowCidArray(vec![(0x41, 0.0, 0.0), (0x42, -50.0, 0.0)], 10.0, 600.0),
+        Call::DrawImage("Im1", [10.0, 10.0, 50.0, 50.0]),
+        Call::Restore,
+    ];
+    if let Ok((content, _)) = emit(&calls) {
+        v.push(("library-emitted".to_string(), content));
+    }
+    // 2: first page of a third-party-produced fixture
+    let p = vx::repo_root().join("oxidize-pdf-core/tests/fixtures/interop_base.pdf");
+    if let Ok(bytes) = std::fs::read(&p) {
+        if let Ok(f) = PdfFile::parse(&bytes) {
+            if let Ok(pages) = f.pages() {
+                if let Some(pg) = pages.first() {
+                    if let Ok(c) = f.page_content(pg) {
+                        let cut = c.len().min(900);
+                        v.push(("fixture interop_base.pdf page 1".to_string(), c[..cut].to_vec()));
+                    }
+                }
+            }
+        }
+    }
+    // 3: hand-written, uses every token form incl. an inline image
+    v.push(("hand-written".to_string(), HAND_STREAM.to_vec()));
+    v
+}
+
+// ------------------------------------------------------------------ run
+
+pub fn run(rep: &mut Report) {
+    let thorough = rep.tier.is_thorough();
+    rep.rule(
+        "writer half: a case = one sequence of API calls on a fresh Page (every sequence of <=3 vocabulary entries; every argument-menu \
+         assignment of one call; every byte in a shown string); non-trivial = the emitted stream has >=1 operator; distinct input = distinct call list. \
+         parser half: a case = one byte string; all are non-trivial",
+    );
+    rep.assume("refpdf::file reads the page content the writer stored (uncompressed /Contents); refpdf::content is the reference tokenizer (ISO 32000-1 7.8.2, Annex A)");
+    rep.assume("documented precision: {:.2} operands, {:.3} device colours, {:.4} sc components, Tf size in full; non-finite -> 0; numbers compared within half a unit of that precision");
+    rep.assume("characters without a WinAnsi code in Annex D (controls, DEL, C1) are expected as the bytes the library's public TextEncoding::WinAnsiEncoding.encode gives; the encoder itself is C25's subject");
+    rep.assume("miter limit < 1 and flatness outside 0..100 may be emitted as issued or clamped (Table 57 ranges)");
+
+    let voc = vocab(thorough);
+    rep.note("vocabulary_size", json!(voc.len()));
+
+    // ---- seq: all sequences of <= 3 calls
+    {
+        let voc = voc.clone();
+        rep.explore("seq", Explore::full(), move |c: &mut Ctx| {
+            let len = 1 + c.choose("len-1", 3);
+            let mut calls = Vec::with_capacity(len);
+            for _ in 0..len {
+                calls.push(voc[c.choose("call", voc.len())].clone());
+            }
+            run_case(c, &calls);
+        });
+    }
+
+    // ---- seq4 (thorough): all sequences of exactly 4 calls over a core vocabulary (one entry per
+    // stateful call family, so that save/restore, context switches and marked content interleave)
+    if thorough {
+        let core = vec![
+            Call::MoveTo(NAN, 1e9),
+            Call::Rect([0.0, -0.0, 12.5, 1e9]),
+            Call::Stroke,
+            Call::Fill,
+            Call::ClipStroke,
+            Call::SetStrokeColor(Col::Rgb(NAN, 0.005, 1e9)),
+            Call::SetFillColor(Col::Cmyk(0.0, -0.0, INF, -1e-9)),
+            Call::Dash(vec![NAN, INF], -INF),
+            Call::SetOpacity(0.5),
+            Call::Save,
+            Call::Restore,
+            Call::Transform([NAN, INF, -INF, -1e-9, 12.5, 0.0]),
+            Call::DrawImage("Im1", [12.5, 0.005, 1e9, -1e-9]),
+            Call::GBeginText,
+            Call::GEndText,
+            Call::GSetFont(F::Custom("F7"), -1e-9),
+            Call::GShowText("A(b)\\c".into()),
+            Call::ShowCidArray(vec![(0x41, 0.0, 0.0), (0x42, -50.0, 0.0), (0xFFFF, f32::NAN, 0.0), (0, 0.0, 12.5)], 12.5, INF),
+            Call::TSetFont(F::Custom("F7"), 12.0),
+            Call::TAt(NAN, 1e9),
+            Call::TWrite("Hi (x) \\ \u{e9}\u{20ac}".into()),
+            Call::THScale(0.5),
+            Call::TFillColor(Col::Rgb(0.0, 0.005, 1.0)),
+            Call::BeginMC("P"),
+            Call::BeginMCActual("Span", "fi\u{e9}\u{1d11e})"),
+            Call::EndMC,
+        ];
+        rep.note("core_vocabulary_size", json!(core.len()));
+        rep.explore("seq4-core", Explore::full(), move |c: &mut Ctx| {
+            let mut calls = Vec::with_capacity(4);
+            for _ in 0..4 {
+                calls.push(core[c.choose("call", core.len())].clone());
+            }
+            run_case(c, &calls);
+        });
+    }
+
+    // ---- args: full argument-menu cross product for calls with <= 4 numeric arguments
+    rep.explore("args-full", Explore::full(), |c: &mut Ctx| {
+        let kind = c.choose("kind", 22);
+        let a = |c: &mut Ctx| *c.pick_from("arg", &NUMS);
+        let call = match kind {
+            0 => Call::MoveTo(a(c), a(c)),
+            1 => Call::LineTo(a(c), a(c)),
+            2 => Call::Rect([a(c), a(c), a(c), a(c)]),
+            3 => Call::LineWidth(a(c)),
+            4 => Call::Miter(a(c)),
+            5 => Call::Flatness(a(c)),
+            6 => Call::Dash(vec![a(c), a(c)], a(c)),
+            7 => Call::Translate(a(c), a(c)),
+            8 => Call::Scale(a(c), a(c)),
+            9 => Call::Rotate(a(c)),
+            10 => Call::DrawImage("Im1", [a(c), a(c), a(c), a(c)]),
+            11 => Call::GSetFont(F::Helvetica, a(c)),
+            12 => Call::GTextPos(a(c), a(c)),
+            13 => Call::GWordSpacing(a(c)),
+            14 => Call::GCharSpacing(a(c)),
+            15 => Call::SetStrokeColor(Col::Gray(a(c))),
+            16 => Call::SetFillColor(Col::Rgb(a(c), a(c), a(c))),
+            17 => Call::SetFillColor(Col::Cmyk(a(c), a(c), a(c), a(c))),
+            18 => Call::SetStrokeColor(Col::Rgb(a(c), a(c), a(c))),
+            19 => Call::TAt(a(c), a(c)),
+            20 => Call::TSetFont(F::Courier, a(c)),
+            _ => {
+                let which = c.choose("text-param", 5);
+                let v = a(c);
+                match which {
+                    0 => Call::TCharSpacing(v),
+                    1 => Call::TWordSpacing(v),
+                    2 => Call::THScale(v),
+                    3 => Call::TLeading(v),
+                    _ => Call::TRise(v),
+                }
+            }
+        };
+        // colours and text state only show in the stream once something is painted / written
+        let calls = match &call {
+            Call::SetStrokeColor(_) => vec![call, Call::Stroke],
+            Call::SetFillColor(_) => vec![call, Call::Fill],
+            Call::TAt(..) | Call::TSetFont(..) | Call::TCharSpacing(_) | Call::TWordSpacing(_) | Call::THScale(_) | Call::TLeading(_) | Call::TRise(_) => vec![call, Call::TWrite("x".into())],
+            _ => vec![call],
+        };
+        run_case(c, &calls);
+    });
+
+    // ---- args-dev: six-argument calls, every assignment with <= 2 (quick) / 3 (thorough) non-default arguments
+    rep.explore("args-dev", Explore::dev(if thorough { 3 } else { 2 }), |c: &mut Ctx| {
+        let kind = c.choose("kind", 3);
+        let mut a6 = [0.0f64; 6];
+        for x in a6.iter_mut() {
+            *x = *c.pick_dev("arg", &NUMS);
+        }
+        let calls = match kind {
+            0 => vec![Call::CurveTo(a6)],
+            1 => vec![Call::Transform(a6)],
+            _ => vec![Call::ShowCidArray(vec![(0x41, a6[0] as f32, a6[1] as f32), (0x1234, a6[2] as f32, a6[3] as f32)], a6[4], a6[5])],
+        };
+        run_case(c, &calls);
+    });
+
+    // ---- tj-bytes: every byte 0x00..0xFF in a shown string, three APIs, four contexts
+    rep.explore("tj-bytes", Explore::full(), |c: &mut Ctx| {
+        let api = c.choose("api", 3);
+        let b = c.choose("byte", 256) as u8;
+        let ctx = c.choose("context", 4);
+        // api 0: TextContext::write (WinAnsi + escape_show_text_literal_bytes) — the character that encodes to b
+        // api 1: GraphicsContext::show_text; api 2: GraphicsContext::draw_text (code point == byte)
+        let ch = if api <= 1 { char_for_byte(b) } else { Some(b as char) };
+        let Some(ch) = ch else {
+            // 0x81 0x8D 0x8F 0x90 0x9D: no character encodes to them in WinAnsi; reached through api 2 only
+            c.outcome(vx::h64(&"no-char"));
+            return;
+        };
+        let s: String = match ctx {
+            0 => ch.to_string(),
+            1 => format!("A{ch}1"),
+            2 => format!("{ch}{ch}"),
+            _ => format!("({ch}\\"),
+        };
+        let calls = match api {
+            0 => vec![Call::TWrite(s)],
+            1 => vec![Call::GBeginText, Call::GShowText(s), Call::GEndText],
+            _ => vec![Call::DrawText(s, 12.5, 0.0)],
+        };
+        run_case(c, &calls);
+    });
+
+    // ---- tj-pairs: every pair of bytes over the structurally interesting set (thorough: all 65536 pairs) through write()
+    let interesting: Vec<u8> = if thorough { (0u16..256).map(|b| b as u8).collect() } else { vec![0x00, 0x08, 0x09, 0x0A, 0x0C, 0x0D, b' ', b'(', b')', b'\\', b'0', b'7', b'8', b'n', b'r', b'<', b'>', b'%', 0x7F, 0x80, 0x95, 0xA0, 0xAD, 0xFF] };
+    rep.explore("tj-pairs", Explore::full(), move |c: &mut Ctx| {
+        let b1 = *c.pick_from("b1", &interesting);
+        let b2 = *c.pick_from("b2", &interesting);
+        let custom = false;
+        let (Some(c1), Some(c2)) = (char_for_byte(b1), char_for_byte(b2)) else {
+            c.outcome(vx::h64(&"no-char"));
+            return;
+        };
+        let _ = custom;
+        run_case(c, &[Call::TWrite(format!("{c1}{c2}"))]);
+    });
+
+    // ---- type0: strings through the Custom-font (hex) paths
+    rep.explore("hex-strings", Explore::full(), |c: &mut Ctx| {
+        const STRS: [&str; 8] = ["", "A", "\u{e9}", "\u{4e2d}\u{6587}", "\u{1d11e}", "a\u{1d11e}b", "\u{ffff}\u{0}", "()\\<>"];
+        let s = *c.pick_from("string", &STRS);
+        let api = c.choose("api", 3);
+        let calls = match api {
+            0 => vec![Call::TSetFont(F::Custom("F7"), 12.0), Call::TWrite(s.into())],
+            1 => vec![Call::GSetFont(F::Custom("F7"), 12.0), Call::GBeginText, Call::GShowText(s.into()), Call::GEndText],
+            _ => vec![Call::GSetFont(F::Custom("F7"), 12.0), Call::DrawText(s.into(), 1.0, 2.0)],
+        };
+        run_case(c, &calls);
+    });
+
+    // ---- names: every name-taking call x name menu
+    rep.explore("names", Explore::full(), |c: &mut Ctx| {
+        const NAMES: [&str; 8] = ["Im1", "A.B-c_1", "A B", "A#42", "A/B", "A(B", "\u{dc}", "A%B"];
+        let n = *c.pick_from("name", &NAMES);
+        let api = c.choose("api", 5);
+        let calls = match api {
+            0 => vec![Call::DrawImage(n, [1.0, 2.0, 3.0, 4.0])],
+            1 => vec![Call::PaintShading(n)],
+            2 => vec![Call::GSetFont(F::Custom(n), 12.0)],
+            3 => vec![Call::TSetFont(F::Custom(n), 12.0), Call::TWrite("x".into())],
+            _ => vec![Call::BeginMC(n), Call::EndMC],
+        };
+        run_case(c, &calls);
+    });
+
+    // ---- mc: marked content tags and ActualText values
+    rep.explore("marked-content", Explore::full(), |c: &mut Ctx| {
+        const TAGS: [&str; 7] = ["P", "Span", "Artifact", "A B", "A#42", "A/B", "\u{dc}"];
+        const TEXTS: [Option<&str>; 7] = [None, Some(""), Some("fi"), Some("\u{e9}"), Some("\u{1d11e}"), Some("a)b("), Some(">>")];
+        let tag = *c.pick_from("tag", &TAGS);
+        let text = *c.pick_from("text", &TEXTS);
+        let nest = c.choose("shape", 3);
+        let begin = match text {
+            None => Call::BeginMC(tag),
+            Some(t) => Call::BeginMCActual(tag, t),
+        };
+        let calls = match nest {
+            0 => vec![begin, Call::TWrite("x".into()), Call::EndMC],
+            1 => vec![begin.clone(), begin, Call::EndMC, Call::EndMC],
+            _ => vec![Call::MoveTo(1.0, 2.0), begin, Call::LineTo(3.0, 4.0), Call::Stroke, Call::EndMC],
+        };
+        run_case(c, &calls);
+    });
+
+    // ---- parser half
+    let watch = Watch::new();
+    {
+        let watch = watch.clone();
+        rep.explore("term-short", Explore::full(), move |c: &mut Ctx| {
+            let len = c.choose("len", 4);
+            let mut s = Vec::with_capacity(len);
+            for _ in 0..len {
+                s.push(*c.pick_from("byte", &ALPHABET));
+            }
+            c.input(vx::hbytes(&s));
+            c.nontrivial();
+            let (class, msg) = parse_terminates(&watch, &s);
+            c.outcome(vx::h64(&(class, if class == 0 { msg.clone() } else { String::new() })));
+            if class == 2 {
+                c.fail(format!("C21/content-parser-panics@{}", vx::panic_site(&msg)), format!("input={} ({}): {msg}", vx::hex(&s), vx::show_bytes(&s, 16)));
+            }
+            if c.want_sample() {
+                c.sample(json!({"input": vx::show_bytes(&s, 16), "class": class, "result": msg}));
+            }
+        });
+    }
+    let streams = real_streams();
+    rep.note("mutated_streams", json!(streams.iter().map(|(n, s)| json!({"name": n, "len": s.len()})).collect::<Vec<_>>()));
+    if streams.len() != 3 {
+        rep.machinery_error(format!("expected 3 real content streams, have {}", streams.len()));
+    }
+    // every stream must parse un-mutated in both parsers, otherwise it is not a "real" stream
+    for (n, s) in &streams {
+        if rc::parse_content(s).is_err() {
+            rep.machinery_error(format!("real stream {n} does not parse in refpdf"));
+        }
+    }
+    {
+        let watch = watch.clone();
+        let streams = streams.clone();
+        let maxlen = streams.iter().map(|s| s.1.len()).max().unwrap_or(1);
+        rep.explore("term-mutate", Explore::full(), move |c: &mut Ctx| {
+            let si = c.choose("stream", streams.len().max(1));
+            let pos = c.choose("position", maxlen);
+            let Some((_, base)) = streams.get(si) else { return };
+            if pos >= base.len() {
+                c.outcome(0);
+                return;
+            }
+            c.input(vx::h64(&(si, pos)));
+            c.nontrivial();
+            let mut s = base.clone();
+            let orig = s[pos];
+            let mut classes = [0u32; 3];
+            for v in 0u16..256 {
+                let v = v as u8;
+                if v == orig {
+                    continue;
+                }
+                s[pos] = v;
+                let (class, msg) = parse_terminates(&watch, &s);
+                classes[class as usize] += 1;
+                if class == 2 {
+                    c.fail(format!("C21/content-parser-panics@{}", vx::panic_site(&msg)), format!("stream {si} byte {pos} := 0x{v:02x}: {msg}; around={}", vx::show_bytes(&s[pos.saturating_sub(20)..(pos + 20).min(s.len())], 60)));
+                }
+            }
+            c.add_evaluations(254);
+            c.outcome(vx::h64(&classes));
+        });
+    }
+}
